@@ -6,7 +6,7 @@ import itertools
 import random
 
 DEV_DEFAULTS = dict(ups=[], cyc=0, cap=-1, delay=0, budget=-1, pval=0, bsrc=-1, bsize=0, req={}, pred='all',
-                    vadd=0, qset=0, cycmod=0, offmod=0, foff=0, late=False)
+                    vadd=0, qset=0, qinc=False, cycmod=0, offmod=0, foff=0, late=False)
 
 
 def norm(cfg):
@@ -237,7 +237,7 @@ def gen_targeted(rng, count=60):
     released or enlarged, zero-length cycles with one-shot offsets, calls made between two runs."""
     out = []
     for i in range(count):
-        kind = i % 6
+        kind = i % 8
         H = rng.choice([24, 32])
         if kind == 0:        # failure during a maintenance shutdown, part in process or not
             c = rng.choice([4, 6, 8, 10])
@@ -293,6 +293,28 @@ def gen_targeted(rng, count=60):
                     c['dev'] = 2
             cfg = dict(devs=devs, script=script, horizon=H, pools={'A': rng.choice([1, 2])})
             fam = 'between-runs'
+        elif kind == 6:   # parallel machines, one blocked for a while from (nearly) the start: idle longest
+            k = rng.choice([2, 2, 3])
+            devs = [src(rng.choice([3, 4, 6]), rng.choice([6, 9, -1]), pval=1)]
+            for j in range(k):
+                devs.append(dev(rng.choice(['handler', 'processor']), [1], cyc=rng.choice([1, 2])))
+            devs.append(dev('sink', list(range(2, k + 2)), cyc=0))
+            tgt = rng.choice(range(2, k + 2))
+            t1 = rng.choice([1, 2, 3])
+            script = [dict(t=t1, call='block', dev=tgt), dict(t=t1 + rng.choice([2, 4, 6]), call='unblock', dev=tgt)]
+            cfg = dict(devs=devs, script=script, horizon=H + 8)
+            fam = 'idle-longest'
+        elif kind == 7:  # rework loop: parts pass the same junction, machine and gates twice
+            c = rng.choice([2, 3, 4])
+            devs = [src(rng.choice([1, 2, 3]), rng.choice([3, 5, 8]), pval=1),
+                    dev('junction', [1, 6]),
+                    dev('processor', [2], cyc=c, qinc=True),
+                    dev('gate', [3], pred='qge3'),
+                    dev('gate', [3], pred='qeq2'),
+                    dev('buffer', [5], cap=rng.choice([1, 2, 3]), delay=rng.choice([0, 1])),
+                    dev('sink', [4], cyc=rng.choice([0, 2]))]
+            cfg = dict(devs=devs, horizon=H + 16)
+            fam = 'rework-loop'
         else:                # a blocked machine that goes down with a finished part while downstream frees up
             devs = [src(1, rng.choice([3, 5, -1]), pval=1), dev('processor', [1], cyc=rng.choice([1, 2])),
                     dev('processor', [2], cyc=rng.choice([6, 8, 10])), dev('sink', [3], cyc=0)]
@@ -412,7 +434,7 @@ def quick_family(seed, scale=1):
     res = gen_resources(rng, 60 * scale)
     out += res
     out += [add_faults(rng, c, rng.choice([1, 2, 4])) for c in gen_resources(rng, 60 * scale)]
-    out += gen_targeted(rng, 90 * scale)
+    out += gen_targeted(rng, 120 * scale)
     out += gen_batch(rng, 90 * scale)
     out += gen_gates(rng, 70 * scale)
     out += [add_faults(rng, c, rng.choice([1, 2, 3])) for c in gen_gates(rng, 40 * scale) + gen_batch(rng, 40 * scale)]
